@@ -101,6 +101,9 @@ def gen_header(rng, tier, ctx):
         bases.append(real)
     for n in (0, 1, 7, 40):
         bases.append(make_file(rng, n, type_ids_size=rng.randrange(100)))
+    bases.append(make_file(rng, 9, magic=b"dey\n035\x00", type_ids_size=rng.randrange(100)))      # the optimised-DEX magic: the same rules hold
+    if real:
+        bases.append(list(b"dey") + real[3:])
     for base in bases:
         cases.append(list(base))
         for off in range(12, len(base)):                     # every offset after the checksum field
@@ -124,6 +127,15 @@ def gen_header(rng, tier, ctx):
                 m = list(b[:8] + struct.pack("<I", val) + b[12:])
                 if m != base:
                     cases.append(m)
+    # magics near the right ones, the checksum right (it does not cover the magic): rotations and windows of the two prefixes,
+    # case changes, neighbouring letters, the two prefixes swapped into each other's version field
+    two = b"dex\ndey\ndex\ndey"
+    near = {two[i:i + 4] for i in range(len(two) - 3)} | {b"DEX\n", b"Dex\n", b"dex\r", b"dex ", b"dez\n", b"dew\n", b"dfx\n", b"eex\n", b"dex\x00", b"\x00dex",
+                                                          b"dey\r", b"dex\x0b", b"xed\n", b"yed\n", b"de\nx", b"d\nex"}
+    for m4 in sorted(near):
+        for ver in (b"035\x00", b"039\x00", b"dex\n"[:3] + b"\x00"):
+            if m4 + ver not in (b"dex\n035\x00",):
+                cases.append(make_file(rng, rng.choice((0, 8)), magic=m4 + ver))
     for hs in list(range(0, 0x100)) + [0x170, 0x1070, 0x700000, 0x70000000, 0x80000070, 0xFFFFFFFF]:   # every small header size, the checksum right
         if hs != 0x70:
             cases.append(make_file(rng, rng.choice((0, 8, 16)), header_size=hs))
